@@ -536,6 +536,10 @@ def frame_condition(op, before, after, vocab_idx_keys):
         for lv in before["index"]:
             if dict(lv)["name"] not in moved and lv not in after["index"]:
                 return "reset_index changed a level that stays in the index"
+        if len(after["index"]) >= 2 and before["miOpts"] != after["miOpts"]:
+            return "reset_index changed the options of the MultiIndex that remains: " + \
+                   ", ".join(f"{k_}: {v} -> {dict(after['miOpts']).get(k_)}" for k_, v in before["miOpts"]
+                             if dict(after["miOpts"]).get(k_) != v)
         if not op["drop"]:
             for n in moved:
                 if n not in a_cols:
